@@ -159,7 +159,7 @@ func c12R2(e *Engine) {
 				}
 				found = true
 				// canonicalising call between the field and the result?
-				canon := false
+				canon, other := false, ""
 				var walk func(v ssa.Value, d int)
 				walk = func(v ssa.Value, d int) {
 					if d > 6 {
@@ -169,9 +169,19 @@ func c12R2(e *Engine) {
 					case *ssa.Call:
 						g := x.Call.StaticCallee()
 						if g != nil && !isPtrHelper(g) {
-							name := strings.ToLower(g.Name())
-							if strings.Contains(name, "canon") || strings.Contains(name, "normal") || strings.Contains(staticCalleeName(x), "big.") {
+							// exact canonicalisation is recognised only when it goes through arbitrary-precision decimals
+							exact := false
+							for h := range e.reach(g) {
+								instrs(h, func(j ssa.Instruction) {
+									if c, ok := j.(*ssa.Call); ok && strings.Contains(staticCalleeName(c), "math/big.") {
+										exact = true
+									}
+								})
+							}
+							if strings.Contains(staticCalleeName(x), "math/big.") || exact {
 								canon = true
+							} else {
+								other = e.fname(g)
 							}
 						}
 						for _, a := range x.Call.Args {
@@ -183,7 +193,9 @@ func c12R2(e *Engine) {
 				}
 				walk(retVals(ret)[0], 0)
 				if canon {
-					e.pass("R2", e.fname(fn)+":N-key-canonical", e.ipos(ret), "the numeral of an N-typed key attribute is canonicalised before it is rendered into the key string")
+					e.pass("R2", e.fname(fn)+":N-key-canonical", e.ipos(ret), "the numeral of an N-typed key attribute is canonicalised through arbitrary-precision arithmetic before it is rendered into the key string")
+				} else if other != "" {
+					e.undecided("R2", e.fname(fn)+":N-key-canonical:"+other, e.ipos(ret), "the numeral of an N-typed key attribute is rewritten by %s, which is not a recognised exact canonicalisation (math/big): whether numerically different numerals can be folded into one key (\"10.0\" → \"1\") or equal ones kept apart cannot be established here", other)
 				} else {
 					e.fail("R2", e.fname(fn)+":N-key-canonical", e.ipos(ret), "an N-typed key attribute enters the key string as its raw numeral text: key 1 and key 1.0 (or 1e0, 01) are different items, GetItem by a numerically equal key finds nothing")
 				}
